@@ -70,6 +70,7 @@ func init() {
 			{ID: "C03-R38", Title: "parse results are not used before they are tested", Floor: 1, Run: parseResultsAreNotUsedBeforeTheyAreTested},
 			{ID: "C03-R39", Title: "what errors.As found is used only when it found it", Floor: 1, Run: whatErrorsAsFoundIsUsedOnlyWhenItFoundIt},
 			{ID: "C03-R40", Title: "the cursor is compared with the length before the character is read", Floor: 1, Run: theCursorIsComparedWithTheLengthBeforeTheCharacterIsRead},
+			{ID: "C03-R41", Title: "equality is not handed back and forth between two types", Floor: 1, Run: equalityIsNotHandedBackAndForth},
 		},
 	})
 }
